@@ -58,8 +58,14 @@ func genProfileAndGraphs(t *rapid.T, name string, nGraphs int) (string, []*m.Gra
 func genC09(t *rapid.T) c09Case {
 	var c c09Case
 	np := rapid.IntRange(1, 2).Draw(t, "profiles")
+	// different profiles may carry the same name (and always share validation names): nothing may be keyed by it
+	sameName := rapid.Bool().Draw(t, "sameName")
 	for i := 0; i < np; i++ {
-		text, graphs, _ := genProfileAndGraphs(t, fmt.Sprintf("c09-%d", i), rapid.IntRange(1, 3).Draw(t, "graphs"))
+		name := fmt.Sprintf("c09-%d", i)
+		if sameName {
+			name = "c09"
+		}
+		text, graphs, _ := genProfileAndGraphs(t, name, rapid.IntRange(1, 3).Draw(t, "graphs"))
 		c.Profiles = append(c.Profiles, text)
 		for _, g := range graphs {
 			switch rapid.IntRange(0, 3).Draw(t, "lexical") {
@@ -84,6 +90,11 @@ func genC09(t *rapid.T) c09Case {
 			c.Docs = append(c.Docs, extra.text)
 			c.DocKinds = append(c.DocKinds, extra.kind)
 		}
+	}
+	// a readable document followed by something else: the reader takes the first JSON value, on every route
+	if rapid.Bool().Draw(t, "extra-trailing") {
+		c.Docs = append(c.Docs, c.Docs[0]+pick(t, []string{"\n{\"@id\":\"http://ex.org/second-document\"}", " ]", "\n# a log line", "}\n", " trailing words", "\n[]", ","}, "trailing"))
+		c.DocKinds = append(c.DocKinds, "trailing-content")
 	}
 	c.FreshProcess = rapid.IntRange(0, 5).Draw(t, "freshProcess") == 0
 	n := rapid.IntRange(3, 20).Draw(t, "ops")
